@@ -20,7 +20,7 @@ git -C "$SV" apply "$OUT/patch.diff" || { echo "PATCH DOES NOT APPLY"; git -C /r
 D1=$(run_demo)
 run_suite() { (cd "$SV" && /venv/bin/python -m pytest -q -rf -p no:cacheprovider --timeout=900 -n 8 > /tmp/seed_suite_$NAME.log 2>&1; tail -1 /tmp/seed_suite_$NAME.log); }
 T=$(run_suite)
-FAILED=$(grep '^FAILED' /tmp/seed_suite_$NAME.log | sed 's/ - .*//' | tr '\n' ' ')
+FAILED=$(grep '^FAILED' /tmp/seed_suite_$NAME.log | sed 's/^FAILED //; s/ - .*//' | tr '\n' ' ')
 if [ -n "$FAILED" ]; then
   # the two unseeded ensemble tests are flaky on the unchanged tree as well (BASELINE.json lists one as known-flaky):
   # a failure confined to them is re-run once, both results are recorded
